@@ -17,7 +17,7 @@ the obligation breaks.
   raised per function; operator/method/constant spellings; operator priorities; keywords; datetime
   layout strings and their order in `ParseTime`);
 * `cancel_site_class`: the context poll raises a plain `ErrExecution` (never suppressible);
-* C19 / C05 effect discipline: `no_goroutines`, `no_unsafe_or_sync`, `no_package_var_writes`,
+* C19 / C05 effect discipline: `no_goroutines`, `no_unsafe_or_sync`, `no_package_var_writes`, `no_package_var_uses`,
   `exec_writes_are_per_call` (package exec only assigns fields of the per-call `Executor`, the
   per-call `valueList`, and a local slice), `ast_writes_are_construction` (package ast only assigns
   node fields in constructors / `setNext` / `NewAny`, and a local byte slice),
@@ -42,6 +42,9 @@ theorem cancel_site_class :
 theorem no_goroutines : Gen.goStatements = [] := by decide
 theorem no_unsafe_or_sync : Gen.sensitiveImports = [("path/exec", "reflect")] := by decide
 theorem no_package_var_writes : Gen.packageVarWrites = [] := by decide
+/-- no function calls a method on, or takes the address of, a package-level variable (a shared
+    scratch buffer, cache or pool would show here) -/
+theorem no_package_var_uses : Gen.packageVarUses = [] := by decide
 
 def hasPrefix (p s : String) : Bool := s.toList.take p.length == p.toList
 
